@@ -56,7 +56,7 @@ func TestMain(m *testing.M) {
 		Property: "C10",
 		Level:    "exploration",
 		Rule: "programs of kvi.KVInterface calls (Set, Get, HasKey, Delete, DeletePrefix, View(iterator program), Update(transaction program, closure returns nil), BulkWrite(sets)) with keys of length 1-3 and values of length 0-3 over the alphabet {0x00,'a','b',0xff} (keys drawn with a bias to keys used earlier, their prefixes and extensions), each run on badger, bolt, level and pebble (opened with kvi.NewKVInterface, one store per driver per process, wiped and verified empty before every case) and compared call by call with the sorted-map model internal/memkv; " +
-			"random programs (<=30 top-level calls, iterator programs <=10 steps, transactions <=8 steps) and an exhaustive enumeration of all mutation sequences up to depth 3 (thorough: 4) over 3 keys {a, ab, b} x every split into committed prefix / one transaction (or one bulk batch), each followed by a fixed battery of point reads, forward/reverse seeks from 6 probe keys with full walks, and seek pairs. " +
+			"random programs (<=30 top-level calls, iterator programs <=10 steps, transactions <=8 steps) and an exhaustive enumeration of all mutation sequences up to depth 3 (thorough: 4) over 3 keys {a, ab, b}, each run at top level, inside one transaction and as one bulk batch (thorough: every split into committed prefix / one transaction or batch), each followed by a fixed battery of point reads, forward/reverse seeks from 6 probe keys with full walks, and seek pairs. " +
 			"A case is one (driver, program). Non-trivial: the program performs a reverse seek or a prefix delete while the store holds >= 3 keys, or an iterator inside a transaction observes that transaction's own write (its observations differ from what the pre-transaction state would give); distinct = distinct (driver, program).",
 		Assumptions: []string{
 			"the oracle is the sorted-map model internal/memkv (Seek: smallest key >= k; SeekReverse: largest key <= k; Next continues in the direction of the last seek; Valid iff on a key; transactions read their own writes; BulkWrite applies its Sets, later ones win); the model itself is unit-tested against a naive map",
